@@ -81,7 +81,7 @@ class C10(Prop):
         sys = C04.sysnp(case)
         # importance weights of the estimator play no role in the adaptive fit (the deltas are absolute): some estimators carry them
         est = gs.make_estimator(sys, **({"w": np.array(case["w"])} if case.get("w") else {}))
-        sw = np.array(case["scale_w"]) if isinstance(case["scale_w"], list) else case["scale_w"]
+        core.watch(est.A); sw = np.array(case["scale_w"]) if isinstance(case["scale_w"], list) else case["scale_w"]
         kw = {}
         if case["neutral"] is not None:
             kw["neutral_point"] = np.array(case["neutral"])
